@@ -221,6 +221,8 @@ class Gen:
         f = r.choice("diuxo")
         bits = r.choice([None, 8, 16, 32, 64])
         w, low = self.boundary_int(bits or 64)
+        if f == "d" and (bits or 64) == 64 and 0xffff0000 < w <= 0xffffffff:
+            w = low = 0xffff0000          # known-defect class (shown as a negative 32-bit number): witness only
         self.put(where, w)
         if bits is None and f == "d" and not sfx and r.random() < 0.5:
             spec = name                                   # plain "argN": 64-bit, automatic format
@@ -359,6 +361,8 @@ class Gen:
             f = r.choice("diuxo")
             bits = r.choice([None, 8, 16, 32, 64])
             w, _ = self.boundary_int(bits or 64)
+            if f == "d" and (bits or 64) == 64 and 0xffff0000 < w <= 0xffffffff:
+                w = 0xffff0000
             c["ret"][0] = w
             c["rspecs"].append("retval" + ("/%s%s" % (f, bits or "") if bits or f != "d" else ""))
             c["ractual"].append(["int", w, ["ret", 0]])
@@ -484,7 +488,15 @@ def witness_overflow_many():
             "actual": [["int", 0]] * len(specs), "ractual": [], "tags": ["witness=overflow-many"], "skip_judge": True}
 
 
-WITNESSES = [("len98", witness_len98), ("c64", witness_c64), ("overflow", witness_overflow),
+def witness_neg32():
+    # `arg1` (documented as 'long int'): the value 4294967295 is shown as -1
+    return {"specs": ["arg1", "arg2/d64"], "rspecs": ["retval"], "regs": [0xffffffff, 0xffff0001, 0, 0, 0, 0], "stack": [],
+            "ret": [0xfffffffb, 0], "strings": {}, "objs": {},
+            "actual": [["int", 0xffffffff, ["reg", 0]], ["int", 0xffff0001, ["reg", 1]]],
+            "ractual": [["int", 0xfffffffb, ["ret", 0]]], "tags": ["witness=auto-neg32"]}
+
+
+WITNESSES = [("len98", witness_len98), ("c64", witness_c64), ("auto-neg32", witness_neg32), ("overflow", witness_overflow),
              ("overflow-many", witness_overflow_many)]
 
 
@@ -880,6 +892,211 @@ def fits(c, pspecs, actual):
     return n <= MAX_SIZE
 
 
+# ================================================================== end to end: compiled programs, --auto-args
+E2E_HEAD = """#include <complex.h>
+struct big { long a, b, c; };
+struct pair { int x, y; };
+"""
+# (C type, kind, bits, signed)
+E2E_TYPES = [("int", "int", 32, True), ("unsigned int", "int", 32, False), ("long", "int", 64, True),
+             ("unsigned long", "int", 64, False), ("short", "int", 16, True), ("unsigned short", "int", 16, False),
+             ("signed char", "int", 8, True), ("unsigned char", "int", 8, False), ("long long", "int", 64, True),
+             ("char", "char", 8, True), ("const char *", "str", 64, False), ("double", "flt", 64, True),
+             ("float", "flt", 32, True), ("long double", "flt", 80, True), ("struct big", "struct", 192, False),
+             ("struct pair", "struct", 64, False), ("int *", "nullptr", 64, False), ("void (*%s)(void)", "fnptr", 64, False)]
+
+
+def int_cands(v, bits):
+    """renderings that denote the C value v of an integer type of this width"""
+    out = set()
+    for b in sorted({bits, 32, 64}):
+        if b < bits:
+            continue
+        u = v % (1 << b)
+        sgn = u - (1 << b) if u >= (1 << (b - 1)) else u
+        out |= {str(u), str(sgn), "0" if u == 0 else hex(u), "0" if u == 0 else "0" + oct(u)[2:]}
+    return sorted(out)
+
+
+class E2EGen:
+    def __init__(self, rng):
+        self.rng = rng
+
+    def value(self, t):
+        r = self.rng
+        ct, kind, bits, signed = t
+        if kind == "int":
+            lo, hi = (-(1 << (bits - 1)), (1 << (bits - 1)) - 1) if signed else (0, (1 << bits) - 1)
+            v = r.choice([0, 1, lo, hi, 100000, 100001, -100000, -100001, 7, -5, 0xffff0000, 0xffff0001, 0xffffffff,
+                          0x100000000, r.randrange(lo, hi + 1), r.randrange(lo, hi + 1)])
+            v = min(max(v, lo), hi)
+            if bits == 64 and 0xffff0000 < v <= 0xffffffff:
+                v = 0xffff0000              # known-defect class (64-bit value shown as negative 32-bit number)
+            sfx = {("long", True): "L", ("long", False): "UL", ("long long", True): "LL"}.get((ct.replace("unsigned ", ""), signed), "")
+            lit = "(%s)%d%s" % (ct, v, "ULL" if not signed and bits == 64 else ("LL" if bits == 64 else ""))
+            if v == lo and signed and bits >= 32:
+                lit = "(%s)(%d%s - 1)" % (ct, v + 1, "LL" if bits == 64 else "")
+            return lit, ["txt", int_cands(v, bits)]
+        if kind == "char":
+            ch = r.choice("xyzAZ09 _-+")
+            return "'%s'" % ch, ["txt", ["'%s'" % ch]]
+        if kind == "str":
+            if r.random() < 0.1:
+                return "(const char *)0", ["null"]
+            n = r.choice([0, 1, 2, 3, 5, 13, 30, 95, 97, 99, 110])
+            sv = "".join(r.choice("abcdefghijklmnopqrstuvwxyzABCDEFGHIJKLMNOPQRSTUVWXYZ0123456789 _") for _ in range(n))
+            return '"%s"' % sv, ["strv", sv]
+        if kind == "flt":
+            v = r.choice([0.0, 1.5, -2.25, 1024.125, -0.5, 3.25, 100000.0, r.randrange(-4000, 4000) / 8.0])
+            sfx = {32: "f", 64: "", 80: "L"}[bits]
+            return "%r%s" % (v, sfx), ["txt", ["%f" % v]]
+        if kind == "struct":
+            return ("(struct big){1, 2, 3}" if "big" in ct else "(struct pair){7, 8}"), ["struct"]
+        if kind == "nullptr":
+            return "(int *)0", ["txt", ["0"]]
+        return "g0", ["txt", ["&g0"]]
+
+    def function(self, k, types=None):
+        r = self.rng
+        types = types or [r.choice(E2E_TYPES) for _ in range(r.randrange(1, 8))]
+        rett = r.choice([E2E_TYPES[0], E2E_TYPES[2], E2E_TYPES[10], E2E_TYPES[11], None, E2E_TYPES[1]])
+        params, vals, acts = [], [], []
+        for i, t in enumerate(types):
+            ct = t[0]
+            params.append((ct % ("p%d" % i)) if "%s" in ct else "%s p%d" % (ct, i))
+            lit, act = self.value(t)
+            vals.append(lit)
+            acts.append(act)
+        if rett is None:
+            rtype, body, ract = "void", "", None
+        else:
+            lit, ract = self.value(rett)
+            rtype, body = rett[0], "return %s;" % lit
+        src = "__attribute__((noinline)) %s g%d(%s) { sink++; %s }\n" % (rtype, k, ", ".join(params) or "void", body)
+        call = "  g%d(%s);\n" % (k, ", ".join(vals))
+        return {"name": "g%d" % k, "src": src, "call": call, "actual": acts, "ractual": ract,
+                "types": [t[0] for t in types], "rtype": rtype}
+
+
+def e2e_program(funcs):
+    return (E2E_HEAD + "volatile int sink;\n__attribute__((noinline)) void g0(void) { sink++; }\n"
+            + "".join(f["src"] for f in funcs) + "int main(void) {\n  g0();\n" + "".join(f["call"] for f in funcs)
+            + "  return 0;\n}\n")
+
+
+def e2e_aval(a):
+    if a[0] == "txt":
+        return "ATxt [%s]" % "; ".join(blist(t.encode()) for t in a[1])
+    if a[0] == "strv":
+        return "AStr %s" % blist(a[1].encode())
+    if a[0] == "null":
+        return "ANull"
+    return "AStruct"
+
+
+def e2e_run(ctx, impl, funcs, tag):
+    """compile, record with --auto-args, replay; returns list of (func, problem or None)"""
+    d = os.path.join(ctx.scratch, "e2e-" + tag)
+    shutil.rmtree(d, ignore_errors=True)
+    os.makedirs(d)
+    src = os.path.join(d, "prog.c")
+    open(src, "w").write(e2e_program(funcs))
+    exe = os.path.join(d, "prog")
+    p = subprocess.run(["gcc", "-pg", "-g", "-O0", "-o", exe, src, "-lm"], capture_output=True, text=True, timeout=120)
+    if p.returncode != 0:
+        raise RuntimeError("e2e program does not compile: " + p.stderr[-1500:])
+    uft = os.path.join(impl.objdir, "uftrace")
+    data = os.path.join(d, "data")
+    p = subprocess.run(["timeout", "60", uft, "record", "--no-pager", "--no-event", "--libmcount-path=" + impl.objdir,
+                        "-a", "-d", data, exe], capture_output=True, timeout=90, cwd=d)
+    if p.returncode != 0:
+        return [(None, "uftrace record -a failed rc=%d: %s" % (p.returncode, p.stderr[-400:].decode("latin-1")))]
+    specs = {}
+    cur = None
+    for line in open(os.path.join(data, "prog.dbg"), errors="replace"):
+        if line.startswith("F: "):
+            cur = line.split()[2]
+            specs[cur] = {"A": [], "R": []}
+        elif line[:3] in ("A: ", "R: ") and cur:
+            specs[cur][line[0]] = [x for x in line[3:].strip().lstrip("@").split(",") if x]
+    p = subprocess.run(["timeout", "60", uft, "replay", "--no-pager", "-f", "none", "--no-comment", "-d", data],
+                       capture_output=True, timeout=90)
+    shown = {}
+    for m in re.finditer(rb"(?m)^  (g\d+)(\(.*?\))( = .*)?;$", p.stdout):
+        shown[m.group(1).decode()] = (m.group(2), (m.group(3) + b";") if m.group(3) else b"")
+    items, out = [], []
+    for f in funcs:
+        sp = specs.get(f["name"])
+        if sp is None or f["name"] not in shown:
+            out.append((f, "no debug info / no replay line for %s" % f["name"]))
+            continue
+        if len(sp["A"]) != len(f["actual"]) or (f["ractual"] is not None and len(sp["R"]) != 1):
+            out.append((f, "--auto-args produced %d argument specs (%s) for %d parameters, %d return specs"
+                        % (len(sp["A"]), ",".join(sp["A"]), len(f["actual"]), len(sp["R"]))))
+            continue
+        pa = impl.parse_specs(sp["A"])
+        pr = impl.parse_specs(sp["R"]) if f["ractual"] is not None else []
+        if any(x is None for x in pa + pr):
+            out.append((f, "spec of --auto-args rejected by parse_argspec: %s %s" % (sp["A"], sp["R"])))
+            continue
+        f["specs"], f["rspecs"] = sp["A"], sp["R"]
+        f["shown"] = (shown[f["name"]][0].decode("latin-1"), shown[f["name"]][1].decode("latin-1"))
+        items.append((f, pa, pr))
+    if items:
+        defs = "Definition items : list (list (spec * aval) * list (spec * aval) * list N * list N) := [\n%s\n].\n" % ";\n".join(
+            "([%s], [%s], %s, %s)" % ("; ".join("(%s, %s)" % (coq_spec(s), e2e_aval(a)) for s, a in zip(pa, f["actual"])),
+                                      "; ".join("(%s, %s)" % (coq_spec(s), e2e_aval(f["ractual"])) for s in pr),
+                                      blist(shown[f["name"]][0]),
+                                      blist(shown[f["name"]][1] if f["ractual"] is not None else b""))
+            for f, pa, pr in items)
+        res = coq.run_cases(ctx, "e2e_" + tag, PRE, defs, [
+            ("bad", "bad_indices (fun x => match x with (a, r, ta, tr) => ok_args a ta && ok_ret r tr end) items 0")])
+        bad = set(coq.parse_nat_list(res["bad"])) if res else set()
+        for i, (f, pa, pr) in enumerate(items):
+            out.append((f, ("replay shows %s%s" % f["shown"]) if i in bad else None))
+    return out
+
+
+def e2e(ctx, impl):
+    """real `uftrace record -a` (specs from DWARF) + replay on compiled programs with known argument values"""
+    g = E2EGen(ctx.rng)
+    fixed = [[E2E_TYPES[0], E2E_TYPES[10], E2E_TYPES[2], E2E_TYPES[9]],
+             [E2E_TYPES[7], E2E_TYPES[4], E2E_TYPES[1], E2E_TYPES[8], E2E_TYPES[3], E2E_TYPES[0], E2E_TYPES[0], E2E_TYPES[10]],
+             [E2E_TYPES[11], E2E_TYPES[12], E2E_TYPES[0], E2E_TYPES[10]],
+             [E2E_TYPES[14], E2E_TYPES[10], E2E_TYPES[0]], [E2E_TYPES[15], E2E_TYPES[10], E2E_TYPES[0]],
+             [E2E_TYPES[13], E2E_TYPES[10], E2E_TYPES[0]], [E2E_TYPES[10], E2E_TYPES[16], E2E_TYPES[17]]]
+    for rnd in range(ctx.n(1, 8)):
+        funcs = [g.function(k + 1, t) for k, t in enumerate(fixed)] if rnd == 0 else []
+        funcs += [g.function(len(funcs) + k + 1) for k in range(ctx.n(10, 24))]
+        nbad = 0
+        for f, problem in e2e_run(ctx, impl, funcs, "p%d" % rnd):
+            if f is None:
+                ctx.broken("end-to-end run failed: " + problem)
+                continue
+            ctx.case(key=("e2e", f["src"], f["call"]), tags=["e2e:auto-args"] + ["e2e:type=" + t for t in f["types"]])
+            if problem:
+                nbad += 1
+                if nbad <= 2:
+                    ctx.violation("C09 violated end to end (--auto-args): %s(%s) called as %s: %s"
+                                  % (f["name"], ", ".join(f["types"]), f["call"].strip(), problem),
+                                  {"mode": "e2e", "program": e2e_program(funcs), "function": f["name"],
+                                   "specs": f.get("specs"), "rspecs": f.get("rspecs"), "shown": f.get("shown")}, True)
+    # dedicated witness: a double _Complex parameter is taken for an integer, everything behind it is misplaced
+    w = {"name": "g1", "types": ["double _Complex", "const char *", "signed char"], "rtype": "void",
+         "src": "__attribute__((noinline)) void g1(double _Complex z, const char *s, signed char c) { sink++; }\n",
+         "call": "  g1(1.0 + 2.0 * I, \"str4\", -70);\n",
+         "actual": [["txt", ["1.000000+2.000000i", "1.000000", "{...}"]], ["strv", "str4"], ["txt", int_cands(-70, 8)]],
+         "ractual": None}
+    res = e2e_run(ctx, impl, [w], "complex")
+    problem = res[0][1] if res else "not run"
+    ctx.case(key=("e2e", "witness-complex"), tags=["witness=autoargs-complex"])
+    return ("autoargs-complex",
+            "--auto-args takes a `double _Complex` parameter (passed in xmm0/xmm1) for an integer argument: it and every "
+            "parameter behind it are shown from the wrong registers (g1(1+2i, \"str4\", -70) shows %s)"
+            % (w.get("shown", ("?", ""))[0]), problem is not None,
+            {"mode": "e2e-witness", "program": e2e_program([w]), "shown": w.get("shown"), "specs": w.get("specs")})
+
+
 # ================================================================== entry points
 def common_meta(ctx):
     ctx.rule = ("a case is one traced call: an argument/return spec list (real parse_argspec) plus register, stack, "
@@ -1027,7 +1244,15 @@ def count_cases(ctx, cases):
                  nontrivial=nontriv, tags=tags, sample=sample, size=size)
 
 
-def defect_witnesses(ctx, impl):
+def report_defect(ctx, pending, key, text, still, replay):
+    if ctx.kf.listed(ctx.prop, key) or STRICT_UNLISTED or not still:
+        ctx.known_finding(key, text, still, replay)
+    else:
+        ctx.log("DEFECT WITNESS (not yet listed in known-findings.txt, reported to the lead): %s: %s" % (key, text))
+        pending.append({"key": key, "what": text, "replay": ctx.write_replay(replay, "witness-" + key)})
+
+
+def defect_witnesses(ctx, impl, extra=()):
     """dedicated witnesses of the known defect classes (the generators stay out of them)"""
     cases = [f() for _, f in WITNESSES]
     batches, res = run_cases_through(ctx, impl, cases, "witness")
@@ -1046,9 +1271,12 @@ def defect_witnesses(ctx, impl):
         if i in mism:
             ctx.violation("model and implementation disagree on the witness of known defect %s" % key,
                           {"mode": "mismatch", "case": public(c), "observed": observed(c)}, False)
-        if key in ("len98", "c64"):
+        if key in ("len98", "c64", "auto-neg32"):
             still = i in bad
-            text = {"len98": "a string argument of exactly ARG_STR_MAX (98) characters is shown as 95 characters + '...' "
+            text = {"auto-neg32": "an argument or return value without a format (`argN`, documented as 'long int'; also what "
+                                  "--auto-args emits for long/unsigned long) whose value lies in 0xffff0001..0xffffffff is "
+                                  "shown as a negative 32-bit number (4294967295 -> -1)",
+                    "len98": "a string argument of exactly ARG_STR_MAX (98) characters is shown as 95 characters + '...' "
                              "although it fits (save_to_argbuf truncates before it looks for the NUL)",
                     "c64": "`argN/c64` (char format, 8 bytes): get_argspec_string steps over 4 bytes instead of 8, every "
                            "later argument of the call is shown from the wrong bytes (script readers: same)"}[key]
@@ -1061,11 +1289,9 @@ def defect_witnesses(ctx, impl):
                     "overflow-many": "save_to_argbuf copies every scalar before it looks at the limit: 140 eight-byte "
                                      "arguments store %d bytes past the frame's buffer" % max(0, hi - 1024)}[key]
         replay = {"mode": "witness", "witness": key, "case": public(c), "observed": observed(c)}
-        if ctx.kf.listed(ctx.prop, key) or STRICT_UNLISTED or not still:
-            ctx.known_finding(key, text, still, replay)
-        else:
-            ctx.log("DEFECT WITNESS (not yet listed in known-findings.txt, reported to the lead): %s: %s" % (key, text))
-            pending.append({"key": key, "what": text, "replay": ctx.write_replay(replay, "witness-" + key)})
+        report_defect(ctx, pending, key, text, still, replay)
+    for key, text, still, replay in extra:
+        report_defect(ctx, pending, key, text, still, replay)
     ctx.extra["defect_witnesses_pending_listing"] = pending
 
 
@@ -1103,7 +1329,8 @@ def run(ctx):
     batches, res = run_cases_through(ctx, impl, cases, "cases")
     count_cases(ctx, [c for b in batches for c in b])
     verdict(ctx, batches, res)
-    defect_witnesses(ctx, impl)
+    w = e2e(ctx, impl)
+    defect_witnesses(ctx, impl, [w])
 
 
 def replay(ctx, obj):
